@@ -22,19 +22,19 @@ PROPS = {
     },
     "C03": {
         "rules": ["C03.R1", "C03.R2", "C03.R3", "C03.R4", "C03.R5", "C09.R3", "C12.R3", "C12.R4", "C12.R7", "C01.R11", "C04.R1", "C18.R1", "C01.R2", "C12.R10", "C12.R11", "C07.R3"],
-        "explanation": "Decides the happens-before chain of C03 as it is visible in the code's shape: handler only on the Ok edge of the draining function; draining function returns Ok only after recv succeeded on every receiver; hashes are announced only after the handler returned Ok and are taken from its result by the sub-index stored with the sender; the handler's Ok after a command means every command line exited with status 0 (a failed producer never releases its dependents). Not decided: correctness of the announced content, acyclicity of the runtime plan.",
+        "explanation": "Decides the happens-before chain of C03 as it is visible in the code's shape: handler only on the Ok edge of the draining function; draining function returns Ok only after recv succeeded on every receiver; hashes are announced only after the handler returned Ok and are taken from its result by the sub-index stored with the sender; the handler's Ok after a command means every command line exited with status 0 (a failed producer never releases its dependents). Not decided: correctness of the announced content, acyclicity of the runtime plan. Added later: a receiver whose sender hung up without a packet is never followed by the Ok return; a position in the plan is not consulted before it exists (C12.R11); only the two renames of cache.rs put anything into the cache directory (a recovered target is complete when announced).",
     },
     "C04": {
         "rules": ["C04.R1", "C04.R2", "C04.R3", "C04.R4", "C04.R5", "C04.R6", "C08.R4", "C04.R7", "C18.R4", "C02.R6", "C06.R1"],
-        "explanation": "Decides: exit status is tested (code == Some(0)) before an output is accepted; nothing is recorded for a failed execution (history written only under Ok(Ok(_)) of join, error types carry no history); cancel is forwarded on every failing path; a Cancel packet stops the dependent; one error per failed thread, none for cancelled ones; errors carry the failing path; CommandLineOutput.code / success are the process's own exit status, unaltered. Not decided: content correctness of independent rules (C01).",
+        "explanation": "Decides: exit status is tested (code == Some(0)) before an output is accepted; nothing is recorded for a failed execution (history written only under Ok(Ok(_)) of join, error types carry no history); cancel is forwarded on every failing path; a Cancel packet stops the dependent; one error per failed thread, none for cancelled ones; errors carry the failing path; CommandLineOutput.code / success are the process's own exit status, unaltered. Not decided: content correctness of independent rules (C01). Added later: nothing is taken out of the list of collected errors before the verdict; rule threads share no state (an independent rule cannot be made to cancel itself by another's failure).",
     },
     "C05": {
         "rules": ["C05.R1", "C03.R2", "C03.R4", "C05.R3", "C04.R3", "C05.R5", "C12.R5", "C12.R6", "C12.R4", "C05.R6", "C11.R5", "C12.R11"],
-        "explanation": "Decides the channel protocol that makes build/clean terminate: exactly one packet per edge per return path, receivers drained completely, all spawns before any join and every handle joined; the sub-index a dependent is wired with is a position in the producer's own target list (an out-of-range one panics the producer's thread); every loop reachable from the entry points is a `for` over an iterator or a reviewed loop with the reason it ends (a new loop of another kind is an open obligation); Not decided: acyclicity of the runtime wait-for graph (sorter output).",
+        "explanation": "Decides the channel protocol that makes build/clean terminate: exactly one packet per edge per return path, receivers drained completely, all spawns before any join and every handle joined; the sub-index a dependent is wired with is a position in the producer's own target list (an out-of-range one panics the producer's thread); every loop reachable from the entry points is a `for` over an iterator or a reviewed loop with the reason it ends (a new loop of another kind is an open obligation); Not decided: acyclicity of the runtime wait-for graph (sorter output). Added later: library calls that panic on a bad index/length (Vec::remove, copy_from_slice, split_at, ..) are census sites; irreducible cycles count as loops; compiler resume assertions do not.",
     },
     "C06": {
         "rules": ["C06.R1", "C06.R3", "C06.R3b", "C09.R3", "C12.R1", "C05.R1", "C05.R3", "C01.R2", "C18.R2", "C01.R5", "C06.R4", "C06.R5"],
-        "explanation": "Non-interference argument: threads share nothing but channels and the file system (capture inventory); the only contended resource is the cache directory, on which no check-then-act may turn a lost race into a hard error; absence of a cache entry is never an error; channel results are consumed in receiver order, never arrival order; a rule whose restore lost the race for a shared entry is rebuilt (the needs-rebuild predicate is true if *any* target needs it); a restored file is never hashed through the mtime shortcut with the state of the file it replaced (which physical file - and so which mtime - a shared cache entry holds depends on the order in which sibling rules backed up identical content); rule threads create no directory or file on a test-then-create basis; Not decided: equality of final bytes.",
+        "explanation": "Non-interference argument: threads share nothing but channels and the file system (capture inventory); the only contended resource is the cache directory, on which no check-then-act may turn a lost race into a hard error; absence of a cache entry is never an error; channel results are consumed in receiver order, never arrival order; a rule whose restore lost the race for a shared entry is rebuilt (the needs-rebuild predicate is true if *any* target needs it); a restored file is never hashed through the mtime shortcut with the state of the file it replaced (which physical file - and so which mtime - a shared cache entry holds depends on the order in which sibling rules backed up identical content); rule threads create no directory or file on a test-then-create basis; Not decided: equality of final bytes. Added later: an entry taken out of the cache is not put back during the same rule's handling (C06.R5).",
     },
     "C07": {
         "rules": ["C07.R1", "C07.R2", "C07.R3", "C07.R4", "C07.R5", "C01.R6", "C01.R9", "C01.R10", "C18.R1", "C18.R2", "C15.R1", "C18.R5", "C18.R6", "C18.R7"],
@@ -54,35 +54,35 @@ PROPS = {
     },
     "C11": {
         "rules": ["C11.R1", "C11.R2", "C11.R4", "C11.R5", "C04.R2", "C16.R2", "C01.R10", "C18.R1", "C01.R11", "C01.R5", "C07.R2", "C10.R3"],
-        "explanation": "Decides: user data moves only by single renames (no open+create copy); history written only after a successful join, the file-state table only after all joins; state files read back by a strict decoder must be replaced atomically (temp + rename); directory initialisation completes a partial creation (each create_dir guarded by the absence of that same path); an opened state file is always decoded (an empty one is damage, not `no state`); since a kill can leave the file-state table behind the history, every remembered state is validated against the file (exact-mtime shortcut) and every stored state describes the file at its path. Not decided: the disk state at each individual crash point (fault enumeration).",
+        "explanation": "Decides: user data moves only by single renames (no open+create copy); history written only after a successful join, the file-state table only after all joins; state files read back by a strict decoder must be replaced atomically (temp + rename); directory initialisation completes a partial creation (each create_dir guarded by the absence of that same path); an opened state file is always decoded (an empty one is damage, not `no state`); since a kill can leave the file-state table behind the history, every remembered state is validated against the file (exact-mtime shortcut) and every stored state describes the file at its path. Not decided: the disk state at each individual crash point (fault enumeration). Added later: the presence of a state file's temporary never gates the write (a stale temporary is overwritten); the version restored for a missing target is the remembered one.",
     },
     "C12": {
         "rules": ["C12.R1", "C12.R2", "C12.R3", "C12.R4", "C12.R5", "C12.R6", "C12.R7", "C12.R8", "C12.R9", "C12.R10", "C12.R11"],
-        "explanation": "Decides: duplicate targets are detected for every target of every rule; the goal-restricted sort starts only at an existing goal; rules / targets / sources are sorted before numbering and no hash-order iteration reaches the plan; every source is bound to (final index of the producing rule, position among its targets) or to its leaf entry; both cyclic verdicts exist and are guarded; the cycle verdict is issued only against open (visited, on-stack) frames; a whole-graph sort starts a search at every rule and a failed search ends it; the cyclic verdicts are raised inside the search only (never against rules the goal does not reach); Not decided: that the DFS visits exactly the ancestors, once, in dependency order (algorithmic).",
+        "explanation": "Decides: duplicate targets are detected for every target of every rule; the goal-restricted sort starts only at an existing goal; rules / targets / sources are sorted before numbering and no hash-order iteration reaches the plan; every source is bound to (final index of the producing rule, position among its targets) or to its leaf entry; both cyclic verdicts exist and are guarded; the cycle verdict is issued only against open (visited, on-stack) frames; a whole-graph sort starts a search at every rule and a failed search ends it; the cyclic verdicts are raised inside the search only (never against rules the goal does not reach); Not decided: that the DFS visits exactly the ancestors, once, in dependency order (algorithmic). Added later: every search the goal-restricted sort starts begins at the goal's looked-up entry; the source indices of a rule are gathered in one pass (source order); final_index is never read during a search (R11).",
     },
     "C13": {
         "rules": ["C13.R1", "C13.R2", "C13.R3", "C13.R4", "C07.R2", "C15.R8", "C12.R3"],
-        "explanation": "Injectivity of the hashed serialisation as a chain of structural facts (modulo SHA-256): all three fields reach the hash completely and in order; every element is followed by a newline and every section by a delimiter line ':' while the parser never stores a line that is empty or ':' and splits on newline; targets and sources are sorted (or checked sorted), the command is not; the identity names the history file and is the hash of the very strings the node carries. Not decided: nothing of the statement beyond hash collisions; end-to-end use of the identity is C01.",
+        "explanation": "Injectivity of the hashed serialisation as a chain of structural facts (modulo SHA-256): all three fields reach the hash completely and in order; every element is followed by a newline and every section by a delimiter line ':' while the parser never stores a line that is empty or ':' and splits on newline; targets and sources are sorted (or checked sorted), the command is not; the identity names the history file and is the hash of the very strings the node carries. Not decided: nothing of the statement beyond hash collisions; end-to-end use of the identity is C01. Added later: every input function of the hash factory hands its input to the digest on every path (no input is kept back and overtaken); targets are sorted before positions are handed out (C12.R3).",
     },
     "C14": {
         "rules": ["C14.R1", "C14.R2", "C14.R3", "C14.R4", "C14.R5", "C14.R6", "C14.R7", "C14.R8", "C14.R9", "C14.R10"],
-        "explanation": "Decides: the parser's panic obligations (bounds checks guarded by length tests, counters); every state-machine error carries the file name and a line counter that starts at 1 and advances exactly once per line; the transition table read back from the code equals the documented one (4 modes x {empty, ':', other} and the end-of-input verdicts); bundle nodes are merged through a BTreeMap (canonical order, duplicates merged, kind clash rejected); the bundle layer's rejections exist and are guarded; indentation is measured in tabs only (level/text never derive from a whitespace-general operation); no byte offset into a string derives from a character count; the targets and sources of a rule are always what the bundle parser yields for their section; a shared prefix buffer in the bundle expander is restored to a saved length only; the targets section is judged before the sources section; Not decided: equality of the accepted language / yielded strings with the grammar for all texts.",
+        "explanation": "Decides: the parser's panic obligations (bounds checks guarded by length tests, counters); every state-machine error carries the file name and a line counter that starts at 1 and advances exactly once per line; the transition table read back from the code equals the documented one (4 modes x {empty, ':', other} and the end-of-input verdicts); bundle nodes are merged through a BTreeMap (canonical order, duplicates merged, kind clash rejected); the bundle layer's rejections exist and are guarded; indentation is measured in tabs only (level/text never derive from a whitespace-general operation); no byte offset into a string derives from a character count; the targets and sources of a rule are always what the bundle parser yields for their section; a shared prefix buffer in the bundle expander is restored to a saved length only; the targets section is judged before the sources section; Not decided: equality of the accepted language / yielded strings with the grammar for all texts. Added later: no line is dropped from the input before the state machine counts it.",
     },
     "C15": {
         "rules": ["C15.R1", "C15.R2", "C15.R3", "C15.R4", "C15.R5", "C15.R8"],
-        "explanation": "Decides: the chunk loop feeds the SHA-256 digest exactly buffer[..n] of each read and returns only at end of file; the directory hash covers the listing and every entry's own hash; encoder alphabet and decoder table are mutual inverses over exactly the 62 alphanumerics with consistent base, padding, endianness and length; the decoder rejects wrong length, foreign characters and values over 32 bytes; the codec's panic obligations. Not decided: correctness of rust-crypto / num-bigint; equality with an independent SHA-256 (runtime comparison).",
+        "explanation": "Decides: the chunk loop feeds the SHA-256 digest exactly buffer[..n] of each read and returns only at end of file; the directory hash covers the listing and every entry's own hash; encoder alphabet and decoder table are mutual inverses over exactly the 62 alphanumerics with consistent base, padding, endianness and length; the decoder rejects wrong length, foreign characters and values over 32 bytes; the codec's panic obligations. Not decided: correctness of rust-crypto / num-bigint; equality with an independent SHA-256 (runtime comparison). Added later: the entry loop of the directory hasher is left early only towards an error; inputs reach the digest at once and in call order (R8).",
     },
     "C16": {
         "rules": ["C16.R1", "C16.R2", "C16.R3", "C16.R4", "C16.R5", "C16.R6", "C16.R7"],
-        "explanation": "Decides: writer and reader of each state file instantiate bincode with the same type through the default entry points; a decode error is an error all the way up to the entry points (never a default value); no panic-capable local site is reachable from the state readers; the bytes decoded are the file's; the derived encoders write every field unconditionally and the derived decoders default none; the serialised bytes go to the file through write_all (a short write is never taken for a complete one). Not decided: bincode's behaviour on arbitrary, truncated or bit-flipped bytes (dependency semantics).",
+        "explanation": "Decides: writer and reader of each state file instantiate bincode with the same type through the default entry points; a decode error is an error all the way up to the entry points (never a default value); no panic-capable local site is reachable from the state readers; the bytes decoded are the file's; the derived encoders write every field unconditionally and the derived decoders default none; the serialised bytes go to the file through write_all (a short write is never taken for a complete one). Not decided: bincode's behaviour on arbitrary, truncated or bit-flipped bytes (dependency semantics). Added later: the decoder's call-backs into the crate (Deserialize impls, visitors, try_from conversions) are roots of the no-panic census; library calls that panic on an out-of-range argument are census sites.",
     },
     "C17": {
         "rules": ["C17.R1", "C17.R2", "C17.R3", "C04.R2", "C07.R5", "C18.R1", "C02.R6", "C01.R9", "C01.R11", "C12.R3", "C12.R4"],
-        "explanation": "Decides: insert never overwrites (only on the miss edge of the same key) and maps Contradiction to Err; every successful re-execution passes through insert; exactly the indices whose tickets differ are reported and mapped to paths[i] of the refreshed blob; the earlier record cannot leave through an error; the hashes compared after a re-execution are those of the files just written (the refresh reuses a remembered hash only under exact mtime equality); the history is not rooted in the cache directory; the record of every rule that finished is written back whatever happened to other rules of the same build (an unrecorded re-execution cannot be contradicted later). Not decided: whether a given history forces re-execution.",
+        "explanation": "Decides: insert never overwrites (only on the miss edge of the same key) and maps Contradiction to Err; every successful re-execution passes through insert; exactly the indices whose tickets differ are reported and mapped to paths[i] of the refreshed blob; the earlier record cannot leave through an error; the hashes compared after a re-execution are those of the files just written (the refresh reuses a remembered hash only under exact mtime equality); the history is not rooted in the cache directory; the record of every rule that finished is written back whatever happened to other rules of the same build (an unrecorded re-execution cannot be contradicted later). Not decided: whether a given history forces re-execution. Added later: nothing is ever taken out of the map of remembered results; the sub-index a dependent is bound with is the declared source's own (C12.R4).",
     },
     "C18": {
         "rules": ["C18.R1", "C18.R2", "C18.R3", "C01.R6", "C01.R9", "C01.R10", "C11.R2", "C18.R4", "C18.R5", "C01.R11", "C16.R7", "C18.R6", "C07.R1", "C18.R7"],
-        "explanation": "Decides: the shortcut is taken only under exact equality of the file's own mtime with the remembered one; the table is refreshed whenever a command ran; a restored file is never hashed through the shortcut with the state of the file it replaced, and always gets a fresh stored state (unconditionally, not only when the mtimes differ); different modification times give different timestamp numbers (whole seconds scaled by the unit of the sub-second part); Not decided: equality of paired runs over all histories.",
+        "explanation": "Decides: the shortcut is taken only under exact equality of the file's own mtime with the remembered one; the table is refreshed whenever a command ran; a restored file is never hashed through the shortcut with the state of the file it replaced, and always gets a fresh stored state (unconditionally, not only when the mtimes differ); different modification times give different timestamp numbers (whole seconds scaled by the unit of the sub-second part); Not decided: equality of paired runs over all histories. Added later: the number a modification time is stored as is one-to-one (R7: 1_000_000*secs + subsec_micros, every part once).",
     },
     "C19": {
         "rules": ["C19.R1", "C19.R2", "C19.R3", "C19.R4", "C19.R5", "C19.R6", "C07.R2", "C15.R4", "C01.R4", "C19.R7", "C07.R1", "C18.R1", "C12.R3"],
